@@ -7,7 +7,9 @@ from itertools import product
 
 import yaml
 
+from sa.absint import Evaluator
 from sa.index import AnalysisError
+from sa.terms import Sym
 from sa.jinja_ai import ConfigMap, Image, JinjaAI, UNDEF
 from sa.schema import KeyRef, TypeRef
 
@@ -45,11 +47,50 @@ class Acceptor:
             if "from_obj" in ci.methods and ci.module.name != "suit_generator.suit.types.common" and ci.name not in self.CUSTOM:
                 raise AnalysisError(f"custom from_obj of {ci.fq} has no acceptance model")
 
+    def own_validators_reject(self, ci, obj, path):
+        """Checks a class adds in its own from_obj / __init__ (beyond the generic node it derives from), evaluated on the concrete
+        rendered value: a raise whose guard holds for this value means create refuses what the template renders."""
+        from sa.teval import Raised, Unknown, teval
+        if not hasattr(self, "_val_cache"):
+            self._val_cache = {}
+            self._ev0 = Evaluator(self.repo, inline_depth=0)
+        errs = []
+        for mname in ("from_obj", "__init__"):
+            m = ci.methods.get(mname)
+            if m is None:
+                continue
+            params = [a.arg for a in m.node.args.args if a.arg not in ("self", "cls")]
+            if len(params) != 1:
+                continue
+            key = (m.fq, repr(obj))
+            if key not in self._val_cache:
+                res = None
+                try:
+                    for o in self._ev0.outcomes(m):
+                        if o.kind != "raise" or not o.conds:
+                            continue
+                        try:
+                            if all(bool(teval(c, {Sym("param:" + params[0]): obj})) for c in o.conds):
+                                res = f"{ci.name}.{mname} raises for {obj!r}"
+                                break
+                        except (Unknown, Raised, Exception):
+                            continue
+                except AnalysisError:
+                    res = None
+                self._val_cache[key] = res
+            if self._val_cache[key]:
+                errs.append(f"{path}: {self._val_cache[key]}")
+        return errs
+
     def check(self, tr: TypeRef, obj, path="") -> list:
         ci = tr.cls
         if ci is None:
             return [f"{path}: unresolved type"]
         name = ci.name
+        if name not in self.CUSTOM and isinstance(obj, (int, str, list, dict, bool, type(None))):
+            e0 = self.own_validators_reject(ci, obj, path)
+            if e0:
+                return e0
         if name in self.CUSTOM:
             return getattr(self, "c_" + name)(obj, path)
         kind = self.S.kind(ci)
